@@ -95,7 +95,7 @@ def contract_props(c: Contract):
         for p in split_label(lb)[1]:
             if p not in out:
                 out.append(p)
-    for p in c.safety_props:
+    for p in list(c.safety_props) + list(c.ghost.get("props", [])):
         if p not in out:
             out.append(p)
     return out
